@@ -214,6 +214,13 @@ class RegionVisual(Meta):
             else:
                 kwargs[name] = val
 
+        if artist == 'Line2D' and 'fillstyle' in kwargs:
+            # the visual 'fill' flag is a boolean; matplotlib's fillstyle
+            # is the name of a fill style
+            fillstyle = kwargs['fillstyle']
+            if not isinstance(fillstyle, str):
+                kwargs['fillstyle'] = 'full' if fillstyle else 'none'
+
         default_style = kwargs.pop('default_style', None)
         if default_style == 'ds9':
             for key, val in kwargs.items():
